@@ -71,6 +71,13 @@ def run(c):
                          anchor=(0., 0., 0.), kind="contrast", threads=[1, 4][j % 2], cfl=0.2, seed=rng.randrange(1, 10 ** 6),
                          gravity=[3.0e19, 1.0e20][j % 2]))
 
+    # velocity limiter (Hydro:maximum velocity below the speed of part of the gas): it caps the primitive velocity only, the
+    # conserved totals of a periodic box still do not change
+    for j in range(2 if tier == "quick" else 40):
+        plan.append(dict(k=len(plan), n=[(2, 2, 2), (1, 1, 1), (3, 1, 2)][j % 3], per=(1, 1, 1), gamma=gammas[(j + 1) % 4],
+                         side=shapes[j % 3][0], anchor=shapes[j % 3][1], kind="supersonic", threads=[1, 4][j % 2], cfl=0.2,
+                         seed=rng.randrange(1, 10 ** 6), vcap=[2000., 700.][j % 2]))
+
     def rjob(p):
         n, per = p["n"], p["per"]
         ncell = tuple(3 * n[i] if n[i] > 1 else 6 for i in range(3))
@@ -81,6 +88,7 @@ def run(c):
                                side=p["side"], anchor=p["anchor"], gamma=p["gamma"], cfl=p["cfl"],
                                blocks=hydrolib.random_blocks(frng, p["side"], p["anchor"], p["kind"]),
                                total_time=1.0e3, wall="reflective",
+                               hydro_extra="  maximum velocity: %r m s^-1\n" % p["vcap"] if p.get("vcap") else "",
                                extra=("  external gravity: true\n\nExternalPotential:\n  type: PointMass\n"
                                       "  position: [0.5 m, 0.5 m, 0.5 m]\n  mass: %r kg\n" % p["gravity"]) if p.get("gravity") else "")
         out = dict(p=p, rc=res["rc"], recs=None, cmd=res["cmd"], ncell=ncell)
@@ -100,7 +108,7 @@ def run(c):
     for r in runs:
         p = r["p"]
         key = "layout=%dx%dx%d per=%d%d%d gamma=%g kind=%s shape=%s%s" % (
-            tuple(p["n"]) + tuple(p["per"]) + (p["gamma"], p["kind"], p["side"], " gravity" if p.get("gravity") else ""))
+            tuple(p["n"]) + tuple(p["per"]) + (p["gamma"], p["kind"], p["side"], (" gravity" if p.get("gravity") else "") + (" vcap" if p.get("vcap") else "")))
         if r["rc"] != 0:
             c.violation("hydrostate:exit-%d:%s" % (r["rc"], key), "hydro run ended with status %d (%s)" % (r["rc"], key),
                         {"plan": p, "cmd": r["cmd"]})
